@@ -23,6 +23,12 @@ def _save_func(m):
         for c in calls_in(fi.node):
             if call_name(c) in ('os.rename', 'os.replace'):
                 return fi, c
+    # the replace may have been moved out of the class (a module level helper / context manager doing write-then-rename): then
+    # the save path of the mix-in is no longer the unit these rules can decide - an analysis error, not a violation
+    for q, fi in m.functions.items():
+        if fi.module.name == ci.module.name and fi.cls is None and any(call_name(c) in ('os.rename', 'os.replace') for c in calls_in(fi.node)):
+            raise AnchorMissing(f'the rename onto the persistent file lives in the module level function {fi.name}, outside PersistentMixin: '
+                                'the save path is not decided in this form')
     raise AnchorMissing('no method of PersistentMixin renames a file (atomic replace missing)', violation='frappy.persistent.PersistentMixin:atomic replace by rename')
 
 
@@ -112,6 +118,27 @@ def acknowledge_after_rename(ctx):
                   '(OSError), the next saveParameters sees no difference and never retries', save)
 
 
+def _load_is_contained(ctx, m, f, loads):
+    """reading the persistent file never prevents start-up: json.load (on a text file opened as UTF-8) raises JSONDecodeError
+    for broken JSON, UnicodeDecodeError for a byte that is not UTF-8 and a plain ValueError for an absurdly long number - all
+    ValueError subclasses; the handler around it has to cover ValueError (or Exception), not only JSONDecodeError"""
+    for c in loads:
+        cover = False
+        narrow = None
+        for t, part in enclosing_tries(c):
+            if part != 'body':
+                continue
+            for h in t.handlers:
+                names = handler_type_names(h) or ['*']
+                if any(n.rpartition('.')[2] in ('*', 'Exception', 'BaseException', 'ValueError') for n in names) and not handler_reraises(h):
+                    cover = True
+                elif any('JSONDecodeError' in n or 'UnicodeDecodeError' in n for n in names):
+                    narrow = h
+        ctx.check(cover, f'{f.qualname}:a corrupt file is tolerated', c, 'json.load inside a handler for ValueError',
+                  f'`{src(c)}` is guarded by `except {src(narrow.type) if narrow is not None and narrow.type is not None else "..."}` only: a persistent file with a byte that is '
+                  'not valid UTF-8 (a flipped bit, a latin-1 hand edit) raises UnicodeDecodeError out of loadPersistentData - the module can not be created, the node does not start', f)
+
+
 @rule('C17.R3', min_instances=2)
 def tolerant_load(ctx):
     """the value returned by json.load is RAW: using it as a mapping needs a dict kind guard or a covering handler;
@@ -122,7 +149,40 @@ def tolerant_load(ctx):
     cfg = CFG(load.node, m, load.module)
     loads = [c for c in calls_in(load.node) if call_name(c) in ('json.load', 'json.loads')]
     if not loads:
-        raise AnchorMissing('json.load in loadPersistentData not found')
+        # the reading was extracted into a helper method: it has to hand back a dict on every way out
+        for site, h in helper_methods_called(m, load):
+            hl = [c for c in calls_in(h.node) if call_name(c) in ('json.load', 'json.loads')]
+            if not hl:
+                continue
+            ctx.analysed(h)
+            hcfg = CFG(h.node, m, h.module)
+            rd = ReachingDefs(hcfg, h.node)
+            for r in [x for x in body_walk(h.node) if isinstance(x, ast.Return)]:
+                v = r.value
+                vals = [v.body, v.orelse] if isinstance(v, ast.IfExp) else [v]
+                okr = True
+                for e in vals:
+                    if isinstance(e, ast.Dict) or (isinstance(e, ast.Call) and dotted(e.func) == 'dict'):
+                        continue
+                    guarded = isinstance(v, ast.IfExp) and e is v.body and any(en == src(e) and isin and set(k) <= {'dict', 'Mapping'}
+                                                                              for en, k, isin in isinstance_facts(v.test, positive=True))
+                    side = sides_with_fact(hcfg, lambda a, tv, e=e: tv and isinstance(a, ast.Call) and dotted(a.func) == 'isinstance' and len(a.args) == 2
+                                           and src(a.args[0]) == src(e) and 'dict' in src(a.args[1]))
+                    okr = okr and (guarded or (bool(hcfg.ids(r)) and set(hcfg.ids(r)) <= side))
+                ctx.check(okr, f'{load.qualname}:use of loaded value (helper {h.name})', r, 'the helper returns a dict on every way out',
+                          f'`{src(r)}` can hand back the unchecked result of json.load: a file containing a non-object JSON value ([], null, 1) '
+                          'raises AttributeError in loadPersistentData and prevents start-up', h)
+            _load_is_contained(ctx, m, h, hl)
+            break
+        else:
+            raise AnchorMissing('json.load in loadPersistentData not found')
+        imports = func_calls(load.node, attr='import_value')
+        for c in imports:
+            good = any(part == 'body' and any(handler_catches_all(hh) and not handler_reraises(hh) for hh in t.handlers) for t, part in enclosing_tries(c))
+            ctx.check(good, f'{load.qualname}:per-entry import contained', c, 'an unusable entry is ignored individually',
+                      'import_value of a stored entry is not inside a catch-all handler: one bad entry prevents start-up', load)
+        return
+    _load_is_contained(ctx, m, load, loads)
     # which expression holds the loaded value
     holders = set()
     for c in loads:
